@@ -4,7 +4,7 @@ use h3sim::runner::{run_check, Options, Tier};
 fn main() {
     let args: Vec<String> = std::env::args().skip(1).collect();
     if args.is_empty() {
-        eprintln!("usage: h3sim <CHECK-ID> [--tier quick|thorough] [--runs N] [--seed S] [--workers N] [--replay FILE] [--max-wall SECONDS] [--no-evidence]");
+        eprintln!("usage: h3sim <CHECK-ID> [--tier quick|thorough] [--runs N] [--seed S] [--workers N] [--replay FILE] [--max-wall SECONDS] [--no-evidence] [--dump-hashes FILE]");
         std::process::exit(2);
     }
     let id = args[0].clone();
@@ -22,6 +22,8 @@ fn main() {
         workers: std::thread::available_parallelism().map(|n| n.get()).unwrap_or(4),
         max_wall_s: 0.0,
         replay: None,
+        dump_hashes: None,
+        report_classes: 12,
         verif_dir: std::env::var("VERIF_DIR").unwrap_or_else(|_| "/verif".into()),
         shrink_budget: 3000,
         no_evidence: false,
@@ -44,6 +46,9 @@ fn main() {
             "--replay" => opt.replay = Some(val()),
             "--max-wall" => opt.max_wall_s = val().parse().unwrap_or(0.0),
             "--no-evidence" => opt.no_evidence = true,
+            "--dump-hashes" => opt.dump_hashes = Some(val()),
+            "--report-classes" => opt.report_classes = val().parse().unwrap_or(12),
+            "--shrink-budget" => opt.shrink_budget = val().parse().unwrap_or(3000),
             _ => {
                 eprintln!("unknown argument {a}");
                 std::process::exit(2)
